@@ -17,7 +17,9 @@ RULE = ('Generated histories of emit(to=sid, callback=cb_k) and call() to '
         'duplicate ACKs processed while the callback is still running, '
         'callbacks that raise (contained once, never re-invoked), emits '
         'with callback that cannot be sent (unencodable payload, failing '
-        'transport send), acknowledgements (text or binary) on a namespace '
+        'transport send), a message-queue manager whose channel loops back '
+        '(ids are issued in pairs there: an ACK with the id just below an '
+        'outstanding one), acknowledgements (text or binary) on a namespace '
         'that their living transport has left or never joined, '
         'and with disconnects (3 kinds) and reconnects; for call(): generated '
         'orders of {right ACK, wrong ACK, client disconnect, timeout}. '
@@ -54,7 +56,9 @@ def strategy(tier):
         st.fixed_dictionaries({'kind': st.just('used'), 'j': ci}),
         st.fixed_dictionaries({'kind': st.just('other'), 'j': ci}),
         st.fixed_dictionaries({'kind': st.just('never'), 'j': ci}),
-        st.fixed_dictionaries({'kind': st.just('other'), 'j': ci}))
+        st.fixed_dictionaries({'kind': st.just('other'), 'j': ci}),
+        # the number just below an outstanding id
+        st.fixed_dictionaries({'kind': st.just('near'), 'j': ci}))
     during = st.lists(st.one_of(
         st.fixed_dictionaries({'a': st.just('ack_right'), 'args': args}),
         st.fixed_dictionaries({'a': st.just('ack_wrong'), 'args': args}),
@@ -96,13 +100,42 @@ def strategy(tier):
     return st.fixed_dictionaries({
         'aio': st.booleans(),
         'coro_cb': st.booleans(),
+        # the client manager: the default one, or a message-queue manager
+        # (its channel carries this host's own messages back to it)
+        'manager': st.sampled_from(['plain', 'plain', 'queue']),
         'init': st.lists(st.tuples(st.integers(0, 2), st.integers(0, 2)),
                          min_size=2, max_size=5),
         'ops': st.lists(op, min_size=3, max_size=60 if big else 30)})
 
 
+KNOWN = set()
+KF_FORGED = 'forged-ack-fires-queue-manager-callback'
+
+
 def check_case(case):
-    w = World(aio=case['aio'], namespaces=NSS)
+    extra = {}
+    if case.get('manager') == 'queue':
+        from .. import core
+        core.bootstrap()
+        from socketio.async_pubsub_manager import AsyncPubSubManager
+        from socketio.pubsub_manager import PubSubManager
+        import socketio
+        base = AsyncPubSubManager if case['aio'] else PubSubManager
+        plain = socketio.AsyncManager if case['aio'] else socketio.Manager
+
+        class LoopbackManager(base):
+            def initialize(self):
+                plain.initialize(self)      # (no listener task / thread)
+            if case['aio']:
+                async def _publish(self, data):
+                    if data.get('method') == 'callback':
+                        await self._handle_callback(data)
+            else:
+                def _publish(self, data):
+                    if data.get('method') == 'callback':
+                        self._handle_callback(data)
+        extra['client_manager'] = LoopbackManager()
+    w = World(aio=case['aio'], namespaces=NSS, **extra)
     try:
         return _run(case, w)
     finally:
@@ -129,6 +162,7 @@ def _run(case, w):
         if w.client_on(t, NSS[n]) is None:
             w.connect(t, NSS[n])
     cb_log = []
+    queue = case.get('manager') == 'queue'
     outstanding = {}     # client index -> {id: k}
     used = {}            # client index -> [ids]
     expect_cb = []       # (k, args) in order
@@ -231,6 +265,10 @@ def _run(case, w):
                            for i in o if i not in out})
             if cand:
                 return cand[j % len(cand)], 'other'
+        if kind == 'near' and own:
+            i = min(own) - 1
+            if i >= 0 and i not in out and i not in used.get(ci, ()):
+                return i, 'near'
         cand = [i for i in NEVER if i not in out]
         return cand[j % len(cand)], 'never'
 
@@ -303,6 +341,8 @@ def _run(case, w):
             reconnected_since_emit.discard((c['t'], c['ns']))
             check_quiet(step, 'emit_cb')
         elif k == 'emit_fail':
+            if queue:
+                continue    # (ids are issued in pairs there)
             w.recv_all()
             real_send = sio.eio.send
             if op['why'] == 'send':
@@ -394,7 +434,20 @@ def _run(case, w):
             if (c['t'], c['ns']) in reconnected_since_emit:
                 labels['nontrivial'] = True
                 labels['ack_after_reconnect'] = True
-            check_quiet(step, 'ack %s id=%r' % (kind, pid))
+            try:
+                check_quiet(step, 'ack %s id=%r' % (kind, pid))
+            except Violation as v:
+                if queue and kind == 'near' and v.kind.startswith(
+                        'callback'):
+                    det = ('message-queue manager: the event went out with '
+                           'ack id %d; an ACK with the id %d, which was '
+                           'never on the wire, invoked the callback (%s)'
+                           % (pid + 1, pid, v.detail[:120]))
+                    if KF_FORGED in KNOWN:
+                        labels['kf:' + KF_FORGED] = True
+                        return labels
+                    raise Violation(KF_FORGED, det)
+                raise
             for t, pkts in w.recv_all().items():
                 if pkts:
                     raise Violation('ack-caused-traffic', repr(pkts))
